@@ -17,6 +17,7 @@ Decided clauses (narrow): the channels are different code that must funnel into 
          {0,1,2,3}); steps of the leaf arm after the load are not conditioned on the
          value having arrived as text
   C05.g  the omegaconf loader's scalar short-cut covers every scalar type of the yaml loader
+  C05.h  jsonnet arguments: the ext_vars marker is unconditional; the validated object is the stored one
 Not decided: equality of results across channels for all values; loader equivalence
 across parser modes.
 """
@@ -330,6 +331,29 @@ def run(ctx: Ctx) -> int:
             fn=ad5,
         )
     ctx.floor("C05.f-leaf-steps", n_leaf, 2)
+
+    # ---------------- C05.h: jsonnet arguments behave the same whichever channel delivers ext_vars / the value ------
+    # (1) _apply_actions forwards freshly parsed ext_vars to the jsonnet action on the config/object channels only if
+    #     the ext_vars action carries the `jsonnet_ext_vars` marker: it is set whenever the pairing is valid
+    from .util import guard_atoms
+
+    cev = ctx.func("_jsonnet:ActionJsonnet._check_ext_vars_action")
+    marks = [s for s in walk_local(cev) if isinstance(s, ast.Assign) and any(isinstance(t, ast.Attribute) and t.attr == "jsonnet_ext_vars" for t in s.targets)]
+    ctx.need(marks, "_check_ext_vars_action: <ext_vars action>.jsonnet_ext_vars = True")
+    for s in marks:
+        extra_g = [ast.unparse(t) for t, pol in guard_atoms(s, stop=cev) if "default" in ast.unparse(t)]
+        ok = not extra_g
+        ctx.oblige("C05.h", ok, s, "the ext_vars marker is set for every valid ext_vars argument, whatever its default" if ok else f"the ext_vars marker is only set under {extra_g}: with an explicit dict default the config / object channels evaluate the jsonnet snippet with the DEFAULT ext_vars while argv and the environment use the given ones", fn=cev)
+    # (2) schema validation fills schema defaults INTO the validated object: the object validated is the one stored
+    for ref in ("_jsonnet:ActionJsonnet._check_type", "_jsonschema:ActionJsonSchema._check_type"):
+        fn_ = ctx.func(ref)
+        vcalls = [c for c in calls_in(fn_) if call_leaf(c) == "validate" and isinstance(c.func, ast.Attribute) and "_validator" in ast.unparse(c.func.value)]
+        stores_ = [s for s in walk_local(fn_) if isinstance(s, ast.Assign) and isinstance(s.targets[0], ast.Subscript) and isinstance(s.value, ast.Name)]
+        ctx.need(vcalls and stores_, f"{ref}: self._validator.validate(<v>) and value[num] = <v>")
+        stored = {s.value.id for s in stores_}
+        for c in vcalls:
+            ok = len(c.args) == 1 and isinstance(c.args[0], ast.Name) and c.args[0].id in stored
+            ctx.oblige("C05.h", ok, c, "the object validated (and completed with schema defaults) is the object stored" if ok else f"`{src(c, 60)}` validates a copy / derived object: the schema defaults are filled into it and thrown away, so a value that arrives already loaded (config, object) lacks the defaults that the same value given as text (argv, environment) gets", fn=fn_)
 
     # ---------------- C05.g: the omegaconf loader returns every YAML scalar as the yaml loader does -------------
     gol = ctx.func("_optionals:get_omegaconf_loader")
